@@ -1617,6 +1617,16 @@ func (w *World) rowState(d *Del, at time.Time) string {
 	return state
 }
 
+// chainedTo: does d's delivery row name p's delivery row as its predecessor?
+func (w *World) chainedTo(d, p *Del) bool {
+	q := `SELECT COUNT(*) FROM deliveries d JOIN subscriptions s ON d.subscription_id = s.id JOIN deliveries pd ON d.not_before_id = pd.id WHERE s.name = ? AND s.deleted_at IS NULL AND d.message_id = ? AND pd.message_id = ?`
+	var n int
+	if err := w.E.RawDB().QueryRowContext(context.Background(), q, d.Sub.Name, d.Msg.ID, p.Msg.ID).Scan(&n); err != nil {
+		return true // cannot tell: do not file it under the known finding
+	}
+	return n > 0
+}
+
 func tsAny(v any) string {
 	switch x := v.(type) {
 	case nil:
@@ -1717,8 +1727,19 @@ func (w *World) directPred(d *Del, hi time.Time) string {
 	case ip == nil:
 		return "none"
 	case ip.Wild:
-		// the model lost track of it: classify by what its row says
-		return "wild-" + w.rowState(ip, hi)
+		// the model lost track of it: classify by what its row says. An outstanding
+		// one that d's row is not chained to was settled or expired when d was
+		// published and has been revived since (the chain is fixed at publish time:
+		// the known shape); one that d *is* chained to should have held d back
+		st := w.rowState(ip, hi)
+		if st == "outstanding" {
+			if w.chainedTo(d, ip) {
+				st += "-chained"
+			} else {
+				st += "-unchained"
+			}
+		}
+		return "wild-" + st
 	case ip.State == Out && ip.expiredPossible(hi):
 		return "expired"
 	}
